@@ -81,4 +81,6 @@ extern void mpt_linepart_linear(MPT_STRUCT(linepart) *part, const double *from, 
 	}
 	
 	if (!len) ++part->raw;
+	/* value not comparable to range (NaN): skip leading point to make progress */
+	else if (!part->raw) part->raw = 1;
 }
